@@ -7,4 +7,5 @@ let () =
   | _ :: "run" :: _ -> Runmain.run ()
   | _ :: "den" :: _ -> Runmain.run ~spec:true ()
   | _ :: "scope" :: _ -> Runmain.run ~scope:true ()
+  | _ :: "simp" :: _ -> Runmain.run ~simp:true ()
   | _ -> prerr_endline "usage: zwmodel int [--spec] | cov"; exit 2
